@@ -143,6 +143,28 @@ func runScenario(sc scenario) (r childResult) {
 	}
 	closedBefore := atomic.LoadInt64(&c1.closed)
 
+	// A healthy call issued at the very moment the library closes the faulty client's connection (from the
+	// transport's OnClose callback, which waits for it): it is "issued afterwards" and must complete normally, on
+	// a new connection. This pins the one schedule a free-running harness cannot otherwise produce at will.
+	var duringClose atomic.Value // step
+	var hookOnce sync.Once
+	if sc.Via != "raw" {
+		c1.hook.Store(func() {
+			hookOnce.Do(func() {
+				done := make(chan step, 1)
+				go func() {
+					done <- sentinel("during-close/same-client", c1, sentinelTimeout, "echo", "closing", "echo:closing")
+				}()
+				select {
+				case st := <-done:
+					duringClose.Store(st)
+				case <-time.After(2 * sentinelTimeout):
+					duringClose.Store(step{Name: "during-close/same-client", Err: "did not return", Timeout: true})
+				}
+			})
+		})
+	}
+
 	// THE FAULT
 	n := 1
 	if sc.Placement == "double" {
@@ -163,6 +185,13 @@ func runScenario(sc scenario) (r childResult) {
 		}
 	}
 	r.ConnClosed = atomic.LoadInt64(&c1.closed) - closedBefore
+	c1.hook.Store((func())(nil))
+	if st, ok := duringClose.Load().(step); ok {
+		add(st)
+		if !st.OK {
+			violate("call-issued-while-the-faulty-connection-closes-fails", "a healthy call issued on the same client from the transport's OnClose callback (the moment the faulty connection is closed) failed: "+st.Err, st.Timeout)
+		}
+	}
 
 	// release the in-flight calls and collect them
 	f.releaseAll()
